@@ -9,12 +9,18 @@ checks = {
    text="Held on the executions observed: thousands of hostile transaction sequences per run; every block is followed by a raw scan (sum = supply, no negative balance, key shapes), a supply-delta check against successful mint/burn amounts, Transfer/TransferX pairing and a notification-replay ledger compared with the chain. No proof; reach comes from workload diversity (amount pool, signer classes, committee sizes, multi-tx blocks).", ref="§3 C01"),
  "C02": dict(tech="runtime monitoring: per-transaction authorisation monitor correlating observed balance decreases (storage diff) with the transaction's signer set",
    text="Held on the executions observed: every transaction whose storage diff lowers an account is checked for that account's witness, the Alphabet's, or the account being the calling contract; refusing transfers must report false and leave an empty diff. Prediction-free oracle, sound under refactoring.", ref="§3 C02"),
+ "C04": dict(tech="runtime monitoring: container registry reference model; complete read sweep of every getter/lister plus raw storage scan and NNS records after every block",
+   text="Held on the executions observed: put/putNamed/put(meta)/delete/setEACL histories over colliding populations; the model predicts success and the exact PutSuccess/DeleteSuccess/SetEACLSuccess notifications; every getter for every id ever used (and unused / malformed ids), count, list, containersOf for all owners, alias TXT records and the raw storage (no residue of deleted ids, tombstones present) are compared after every block.", ref="§3 C04"),
+ "C05": dict(tech="runtime monitoring: payment monitor over TransferX notifications and Balance storage diffs of every container put, with owner balances driven to the fee threshold",
+   text="Held on the executions observed: for every successful put the multiset of fee transfers and the balance deltas must equal N transfers of the configured fee (+ alias fee), in the transaction that emits PutSuccess; puts at total-1 must fail with an empty diff; fee settings incl. 0 and changes between puts; committees of 1, 4, 7.", ref="§3 C05"),
  "C06": dict(tech="runtime monitoring: epoch/tick reference model with probe subscriber contracts; exact Tick call sequence per tick from the application log, read-back of epoch, maps and candidates after every block",
    text="Held on the executions observed: success of newEpoch is predicted from (Alphabet witness, epoch > current, no rejecting subscriber) and compared; on success the published maps in both formats, the tick height, the unchanged candidate set, exactly one NewEpoch event and exactly one call per subscriber in subscription order are checked; on failure an empty storage diff everywhere (incl. subscribers).", ref="§3 C06"),
  "C07": dict(tech="runtime monitoring: candidate state-machine reference model; predicted effect/refusal and notifications per call, both candidate lists read after every call",
    text="Held on the executions observed: every add/update/remove call over all presence classes, state values and signer combinations is classified effect/inert and compared with the model; the legacy and structured candidate lists must equal the model after every call.", ref="§3 C07"),
  "C08": dict(tech="runtime monitoring: exhaustive small-scope history enumeration on the real ledger with a retention-window model; complete read sweeps and raw storage scans after every resize and tick",
    text="Held on the executions observed; the bounded scope named in the quantifier (counts 0..12, resize epochs 0..30, one resize in quick / up to two in thorough) is executed completely, every history followed by read sweeps of snapshot/snapshotByEpoch/listNodes/netmap and storage scans against the model; plus random longer histories in thorough.", ref="§3 C08"),
+ "C14": dict(tech="runtime monitoring: roster reference model compared in order through the iterators, and an independent crypto/ecdsa oracle counting distinct signing members over generated signature matrices",
+   text="Held on the executions observed: roster histories crossing the 2-byte counter boundaries are read back in order; verifyPlacementSignatures=true (and a successful submitObjectPut) is accepted only if the Go oracle finds >= REP distinct members with a valid signature in every vector; honest matrices must be accepted.", ref="§3 C14"),
  "C09": dict(tech="runtime monitoring: executable lock model stepping with the transaction stream; exact multiset of unlock transfers and balance deltas per epoch tick, state read-back of every lock after every block",
    text="Held on the executions observed: lock/burn/transfer/tick histories with many locks sharing parents and expiry epochs; each tick's unlock events and balance deltas must equal the model's expired set exactly (exactly-once by construction of the model).", ref="§3 C09"),
 }
